@@ -30,6 +30,15 @@ def rule_lock(ctx, rep):
             pat.require(acc, "%s: no access to poll state" % name)
             bad = [i for i in acc if not any(k.endswith("urcu_poll_worker_state.lock") for k in ls.get(i.id, ()))]
             rep.check(not bad, "C14.lock", "%s.%s" % (fl, name), "%d accesses to the poll state, all under its lock" % len(acc), "poll state accessed without its lock", [b.where() for b in bad[:2]])
+            # one critical section per call: the decision taken from the poll state and the state update it implies (active flag,
+            # latest target, re-queue) are atomic with respect to the other entry points; re-taking the lock after releasing it splits them
+            lk = [c for c in f.calls("pthread_mutex_lock") if lockset.lock_name(c).endswith("urcu_poll_worker_state.lock")]
+            ul = [c for c in f.calls("pthread_mutex_unlock") if lockset.lock_name(c).endswith("urcu_poll_worker_state.lock")]
+            pat.require(lk and ul, "%s: poll lock acquisition" % name)
+            again, _par = f.reach(ul, lk)
+            rep.check(again is None, "C14.lock", "%s.%s.one-section" % (fl, name), "the poll state is read and updated in a single critical section",
+                      "%s releases the poll lock and takes it again: what it decided in the first section (re-queue or go idle, handle value) can be invalidated by a "
+                      "start_poll running in between (a handle that never completes / completes early)" % name, [again.where()] if again is not None else [])
             held = [r for r in f.rets() if ls.get(r.id)]
             rep.check(not held, "C14.lock", "%s.%s.released" % (fl, name), "lock released at return", "returns holding the poll lock", [h.where() for h in held])
 
